@@ -2,7 +2,7 @@
 import random
 from vlib.tok import f64, s as S, lst
 from checks.storegen import World, PLAIN, NAMES, BLOCK_KINDS, REL_OF
-from checks import C01, C04, C05, C06, C08, C17
+from checks import C01, C04, C05, C06, C08, C13, C14, C15, C17, C19, C20
 ID = 'C16'
 FLAVOUR = {'quick': 'asan', 'thorough': 'asan'}
 NEEDS_PLAIN = True      # the memcheck cases (meta valgrind) run on the plain build under valgrind
@@ -128,6 +128,8 @@ def abuse_history(rng, tier):
             if e.kind in ('T', 'M'):
                 L('xlinks ref %s' % e.slot)
                 L('xcheck R %s' % e.slot)
+            if e.kind == 'S':
+                L('mkpv $pe %s %s []' % (e.slot, S('no-values')))       # createProperty(name, {}) — an empty container
             if e.kind == 'P':
                 L('pvalues %s %s' % (e.slot, lst(['Int32:3'])))
                 L('pget %s' % e.slot)
@@ -150,7 +152,7 @@ def cases(tier, seed, rng):
     out += [Case(abuse_history(r2, tier), 'gen:abuse-store') for _ in range(n)]
     # the inputs of the retrieval, array and reject families under the sanitizers, with a seed of their own
     sub = 'quick'
-    for mod, frac in ((C05, 0.3), (C06, 0.25), (C17, 0.15), (C01, 0.3), (C08, 0.12)):
+    for mod, frac in ((C05, 0.3), (C06, 0.25), (C17, 0.15), (C01, 0.3), (C08, 0.12), (C13, 0.04), (C14, 0.08), (C15, 0.1), (C19, 0.15), (C20, 0.15)):
         cs = mod.cases(sub if tier == 'quick' else 'thorough', seed + 1600, random.Random(seed * 104729 + hash(mod.ID) % 1000))
         k = max(3, int(len(cs) * frac)) if tier == 'quick' else max(3, int(len(cs) * 0.25))
         # evenly spread over the family's case list (which is grouped by generator), the last case included
